@@ -209,6 +209,10 @@ func checkBounds(l ref.Leaf, u unit, minB, maxB []byte, feat string) *kit.Failur
 		if ref.IsNaN(l, v.I) {
 			continue
 		}
+		// a NaN bounds nothing: it is only the bound of a unit holding nothing but NaN
+		if (l.Phys == ref.Float || l.Phys == ref.Double) && (ref.IsNaN(l, mn.I) || ref.IsNaN(l, mx.I)) {
+			return kit.Failf("c05/nan-bound-with-values"+feat, "%s: the recorded bounds are NaN although the unit holds the value %v", u.what, v)
+		}
 		if c, ok := ref.Compare(l, v.I, v.B, mn.I, mn.B); ok && c < 0 {
 			return kit.Failf("c05/min-not-lower-bound"+feat, "%s: value %v is below the recorded min %v", u.what, v, mn)
 		}
